@@ -204,6 +204,18 @@ def gen(tier, rng):
     for fam in ("token", "introspection"):
         out += [(l, "direct-decode/" + lab) for (l, lab) in D.gen_decode(fam, tier, rng, n_docs=(150 if tier == "quick" else 4000)) if l.split(" ")[2] == "E"]
     out += source_literal_http(KINDS, rng)
+    # requests that cannot be built (an endpoint URL the http crate does not take: too long, no authority): an error value,
+    # no HTTP call, no panic - for every kind
+    from gen import reqs as R
+    for ki, kind in enumerate(R.KINDS):
+        for url in ("https://example.com/" + "a" * 70000, "file:///etc/oauth/token", "urn:ietf:params:oauth:token-endpoint", "data:text/plain,x", "https://example.com/t?q=a b", "mailto:as@example.com"):
+            if kind == "revoke" and not url.startswith("https"):
+                continue
+            for auth in "BR":
+                a1, a2, a3 = R.kind_args(kind, rng, ["val"])
+                l = R.req_line(variants[(ki + len(url)) % 2], kind, auth, "aaa", "bbb", url, None, a1, a2, a3, [], [])
+                if l:
+                    out.append((l, "unbuildable-request"))
     # transport errors
     for kind in KINDS:
         for v in variants:
